@@ -131,8 +131,8 @@ def run(ctx):
     if ctx.broken:
         n *= 3
     cases = []
-    crafted = [['import helper', 'import helper, other as oth2', 'from helper import hf', 'from helper import hf, HK as HK2'],
-               ['from helper import hf', 'import other', 'from helper import hf, HK as HK2', 'import helper, other as oth2']]
+    crafted = [['import helper', 'import helper, other as oth2', 'from helper import hf', 'from helper import hf, HK as HKx'],
+               ['from helper import hf', 'import other', 'from helper import hf, HK as HKx', 'import helper, other as oth2']]
     for i in range(n):
         r = ctx.rng.fork('p%d' % i)
         prog = autoprog.gen_program(r, module_mode=r.chance(1, 4) if i >= len(crafted) else False, force_imports=crafted[i] if i < len(crafted) else None)
